@@ -150,6 +150,26 @@ PROPS["C09"] = dict(
     assumptions=["operands of generated ASTs contain no operator character and do not end in <digit>e"],
 )
 
+PROPS["C10"] = dict(
+    n_quick=3000, n_thorough=300000, shards=8, coq_dirs=["C10"], no_shrink=True,
+    rule="cases: (45%) intent stream -- an option table of 1-5 options over all 28 supported value types (15 scalar, 13 slice), short and/or "
+         "long names (ASCII and multi-byte), defaults; 0-6 assignments each in a random valid spelling (--name=value, --name value, -n value, "
+         "-nvalue, -n=value, grouped flags alone or before a valued short option) with values from per-type pools (range limits, signs, octal, "
+         "all ParseBool spellings, strings such as '', '-', '--', '@x', '=x'), then no tail, '--' and 0-3 arbitrary arguments, or a positional "
+         "first argument ('', '-', ...) and 0-3 arbitrary arguments; half of the vectors are split into 1-3 response files at positions where an "
+         "option is looked for; the expected values and remaining arguments are computed from the intent; (20%) the same with one malformation "
+         "(unknown long/short option, value for a flag, value the type rejects, missing value, help) -- expected: exit status 1; (30%) raw "
+         "vectors of option-like fragments over tables of fully modelled kinds, with response files incl. recursion and missing files (model "
+         "only); (5%) ill-formed tables. Each case runs in a child process; exit status 1 is the fatal path. non-trivial = intent or malformed "
+         "stream; distinct = distinct case text",
+    trivial_class=r"(^raw|^exn$)",
+    trusted_base=["the process exit status 1 of the harness worker is taken as the fatal-exit path (atexit.Exit(1)); usage/error text is not compared",
+                  "final option values are computed in the driver from the model's ordered assignment list (last wins, slices append to the default)",
+                  "float and duration spellings are limited to fixed pools; integer spellings to decimal and 0-prefixed octal (no 0x/0b/0o/underscore)",
+                  "response files are real files in a per-worker temporary directory, one argument per line (no newline inside an argument)"],
+    assumptions=["option names as cmdline.Option.SetName/SetSingle accept them: long names of 2+ characters without '=', short names other than '-'"],
+)
+
 # properties not (yet) claimed, with the reason; an entry is dropped automatically once the property is in PROPS
 NOT_APPLICABLE = {
     "C%02d" % i: "not yet built in this development (model and correspondence harness pending); see DESIGN.md section 22"
@@ -157,6 +177,18 @@ NOT_APPLICABLE = {
 }
 
 MANIFEST_TEXT = {
+    "C10": dict(
+        level_text="Proof: for every accepted option table, every list of assignments in any of the seven valid spellings (grouped flags included), "
+                   "any split of it into distinct response files and any positional tail, Parse performs exactly the denoted assignments in order "
+                   "and returns exactly the positional arguments; splitting into response files does not change the result; every malformed "
+                   "continuation after a valid prefix (unknown option, value for a flag, rejected value in each spelling, missing value), a "
+                   "re-used or missing response file, a help request and a rejected table take the fatal path -- Coq theorems over the model of "
+                   "the three-state scanner, unbounded in table size, vector length and string contents. The model is compared with the real "
+                   "Parse (child process per case; exit status observed) on generated tables and vectors, and the implementation's results with "
+                   "the outcome computed from the generator's intent.",
+        level_note="Trusted: Coq kernel, extraction, drivers, harness; typed value parsing (strconv, time.ParseDuration) is modelled by "
+                   "validity predicates over sampled spellings; usage text, SetDefault/usage rendering and sub-commands are not modelled.",
+        technique="Coq proof (induction over spelled assignments and file segments against a state-machine model) on a hand-written Gallina model + differential correspondence check"),
     "C09": dict(
         level_text="Proof: (1) for every input byte string and every operator/function table the byte-level model of the parser and of the "
                    "evaluation of the tree it builds never reaches a Go panic (no unchecked pop, no missing operator applied); (2) at token "
